@@ -1521,7 +1521,10 @@ def attr_check(ctx, yaw, worlds, seed: int) -> None:
             "WeightsCastAtConstruction": ("WeightsCastAtConstruction", ("series_perm",), "JointRow")}
     cexs = {}
     for label, (dev, conts, inv) in devs.items():
-        dres = tlc.run("RandomGenAttrs", tlc.make_cfg(constants=dict(consts, Containers=tla_set(conts), Deviations=tla_set([dev])), invariants=invs))
+        # only the invariant the deviation is meant to break, one worker: which violated invariant / which counterexample TLC
+        # reports first must not depend on thread timing
+        dres = tlc.run("RandomGenAttrs", tlc.make_cfg(constants=dict(consts, Containers=tla_set(conts), Deviations=tla_set([dev])), invariants=[inv]),
+                       workers=1)
         ctx.add_tlc(f"RandomGenAttrs deviation {label}", dres)
         ctx.require(not dres.ok and dres.error_name == inv, f"deviation {label} yields no counterexample (stale model): {dres.error_kind} {dres.error_name}")
         st = dres.trace[-1]["state"]
